@@ -571,6 +571,12 @@ class Interp:
             raise Unsupported('dereference of a null / integer pointer')
         t = pointee_ty if pv.view is None else pv.view
         vw = pv.view is not None
+        if vw and pv.elem is None and pv.length is None and st is not None and self.types[t].get('size'):
+            # a pointer to (a wrapper of) an array, viewed as a pointer to its element type: element 0
+            nb = self.array_base(pv, st, t)
+            if nb is not None:
+                pv = nb
+                vw = pv.view is not None
         at = self.strip_transparent(t) if vw else None
         if pv.elem is not None and vw and at is not None and self.types[at]['k'] == 'array':
             # `&slice[i] as *const T as *const [T; N]` (or a transparent wrapper of it): a window of N elements
@@ -641,12 +647,24 @@ class Interp:
         ii = self.int_info(t)
         if ii:
             if isinstance(v, AInt):
-                return v
+                if v.w == ii[0]:
+                    return v
+                raise Unsupported('a %d-bit integer is read through a pointer to a %d-bit integer' % (v.w, ii[0]))
             if isinstance(v, Struct):
                 nzv = [x for x in v.f if not (isinstance(x, Struct) and not x.f)]
                 if len(nzv) == 1:
                     return self.adapt_type(nzv[0], t, depth + 1)
-            return v
+            if isinstance(v, Arr) and v.ty is not None:
+                # an array read through a pointer to one wide integer (e.g. [u8; 16] as u128): reassemble from bytes
+                from ops import flatten, unflatten
+                bs = flatten(self, v, v.ty)
+                if bs is not None and len(bs) * 8 == ii[0]:
+                    r = unflatten(self, bs, t)
+                    if r is not None:
+                        return r
+            if isinstance(v, (Uninit,)):
+                return v
+            raise Unsupported('value %r is read through a pointer to %s' % (v, d['s'][:40]))
         if k == 'array':
             if isinstance(v, Arr):
                 if vt is not None and self.types[vt]['k'] == 'array' and self.types[vt]['e'] == d['e']:
